@@ -238,6 +238,18 @@ func (g *Gen) step(fn *ssa.Function, st *State, in ssa.Instruction) {
 			cell = a.Cell
 			a = st.cells[a.Cell]
 		}
+		if a.Kind == "heapfield" {
+			// an array held inside a heap object (fd.UnicodeRange[i]): its elements live in the element heap
+			// under an identity that is a function of the object and the field; writes to it need
+			// `modifies mem` (the identity is neither fresh nor a parameter's)
+			if pt, ok := x.X.Type().Underlying().(*types.Pointer); ok {
+				if at, ok := pt.Elem().Underlying().(*types.Array); ok {
+					ref := fmt.Sprintf("(%s %s)", g.uf("inarr."+a.Idx, 1, "Int"), a.T)
+					g.assume(st, fmt.Sprintf("(> %s 0)", ref))
+					a = Val{Ref: ref, Off: "0", Len: fmt.Sprint(at.Len()), Kind: "slice", Ty: x.X.Type()}
+				}
+			}
+		}
 		if a.Len == "" {
 			panic(oos("IndexAddr on a value without length"))
 		}
@@ -689,6 +701,13 @@ func (g *Gen) lookup(fn *ssa.Function, st *State, x *ssa.Lookup) {
 			kind, zero = "bool", "false"
 		}
 		ev := Val{Kind: kind, T: g.def("mlk", sortOf(Val{Kind: kind}), fmt.Sprintf("(ite %s (select %s %s) %s)", has, st.mval[mv.Ref], key.T, zero))}
+		if mt, ok := x.X.Type().Underlying().(*types.Map); ok && kind == "int" {
+			if _, isPtr := mt.Elem().Underlying().(*types.Pointer); isPtr {
+				// a map of pointers: the value is an object identity (nil when the key is missing)
+				ev.Kind, ev.Ty = "opaque", mt.Elem()
+				g.assume(st, fmt.Sprintf("(>= %s 0)", ev.T))
+			}
+		}
 		if x.CommaOk {
 			g.regs[x] = Val{Kind: "tuple", Tup: []Val{ev, {Kind: "bool", T: has}}}
 		} else {
